@@ -72,7 +72,8 @@ let handle (line : ostr) : ostr =
        let rows = spec_rows t s in
        let ops l = OS.concat " " (List.map (fun o -> of_bytes (op_name o)) l) in
        let link ((c, o), rs) = "[\"" ^ hex_of_bytes c ^ "\",\"" ^ ops o ^ "\",[" ^ OS.concat "," (List.map (fun i -> string_of_int (int_of_nat i)) rs) ^ "]]" in
-       "ok:{\"choices\":[" ^ OS.concat "," (List.map (fun r -> "[" ^ OS.concat "," (List.map cell r) ^ "]") rows)
+       let core x = match x.l_n with Leaf (_, EStr v, _) -> "\"" ^ hex_of_bytes v ^ "\"" | _ -> "null" in
+       "ok:{\"cores\":[" ^ OS.concat "," (List.map (fun r -> "[" ^ OS.concat "," (List.map core r) ^ "]") rows) ^ "],\"choices\":[" ^ OS.concat "," (List.map (fun r -> "[" ^ OS.concat "," (List.map cell r) ^ "]") rows)
        ^ "],\"links\":[" ^ OS.concat "," (List.map (fun l -> "[" ^ OS.concat "," (List.map link l) ^ "]") (spec_links t s)) ^ "]}"
      | r -> res_out (fun _ -> "") r)
   | ["link"; tree; p; q] ->
